@@ -106,8 +106,8 @@ def run(ctx):
         return
     hv = P.val_call(recv, recv.body, hcall)
     offer_i = common.param_index_of_type(swap, "^%s$" % ctx.N.rx("Asset"))
-    sender_i = common.param_index_of_type(swap, r"^cosmwasm_std::\S*Addr$")
-    to_i = common.param_index_of_type(swap, r"^std::option::Option<cosmwasm_std::\S*Addr>$")
+    sender_i = common.param_access(P, swap, r"^cosmwasm_std::\S*Addr$")
+    to_i = common.param_access(P, swap, r"^std::option::Option<cosmwasm_std::\S*Addr>$")
     sinfo = param(swap, INFO_TY)
     if None in (offer_i, sender_i, to_i):
         R["C02.R6"].fail("C02.R6:anchor", swap.path, swap.span, "anchor-missing: swap handler parameters (Asset, Addr, Option<Addr>) not unique")
@@ -279,7 +279,7 @@ def run(ctx):
             r6.fail("C02.R6:asset-origin", swap.path, where, "payout asset ⊢ %s, expected the info of one of the pair's own pools" % sorted(inf))
         else:
             r6.site("payout asset ⊢ pools[k].info")
-        want_rec = "or(%s;%s)" % (P_(swap, to_i), P_(swap, sender_i))
+        want_rec = "or(%s;%s)" % (to_i.some_root(), sender_i.root())
         if rec != {want_rec}:
             r6.fail("C02.R6:recipient-origin", swap.path, where, "payout recipient ⊢ %s, expected `to` or else the trader (%s)" % (sorted(rec), want_rec))
         else:
@@ -319,10 +319,10 @@ def run(ctx):
     r8 = R["C02.R8"]
     exi = param(ex, INFO_TY)
     checks = [
-        ("direct sender", set(ctx.roots(dv[4][sender_i])), {P_(ex, exi, ".sender")}, ex, dcall),
-        ("hook sender", set(ctx.roots(hv[4][sender_i])), {P_(recv, cw20_i, ".sender")}, recv, hcall),
-        ("direct to", set(ctx.roots(dv[4][to_i])), {"A:std::option::Option::None{}", "A:std::option::Option::Some{0=valid(%s)}" % P_(ex, msg_i, "~Swap.to~Some.0")}, ex, dcall),
-        ("hook to", set(ctx.roots(hv[4][to_i])), {"A:std::option::Option::None{}", "A:std::option::Option::Some{0=valid(%s~Swap.to~Some.0)}" % offer_root.split("~Swap")[0]}, recv, hcall),
+        ("direct sender", sender_i.arg_roots(ctx.R, dv), {P_(ex, exi, ".sender")}, ex, dcall),
+        ("hook sender", sender_i.arg_roots(ctx.R, hv), {P_(recv, cw20_i, ".sender")}, recv, hcall),
+        ("direct to", to_i.arg_roots(ctx.R, dv), {"A:std::option::Option::None{}", "A:std::option::Option::Some{0=valid(%s)}" % P_(ex, msg_i, "~Swap.to~Some.0")}, ex, dcall),
+        ("hook to", to_i.arg_roots(ctx.R, hv), {"A:std::option::Option::None{}", "A:std::option::Option::Some{0=valid(%s~Swap.to~Some.0)}" % offer_root.split("~Swap")[0]}, recv, hcall),
     ]
     for label, got, want, f, cb in checks:
         # `to` may also be forwarded unvalidated / as-is
